@@ -52,6 +52,10 @@ def run(chk: Check, proj: Project) -> None:
     _w = _world(proj)
     chk.borrow("S14", "the token stream is a function of the source text alone: the lexer keeps its working state (the pieces of the tag being rebuilt, positions, flags) in locals - a module-level scratch buffer that is cleared and refilled per call is shared by threads compiling templates at the same time, and one thread's token then holds the other's text (shared with C07-S1-C)",
                lambda sub: _C07.s1c_shared(sub, proj, _w, _C07.reach_set(proj, _w)), only=lambda o: o.construct.startswith("util.template_parser:"))
+    from . import C10 as _C10
+
+    chk.borrow("S16", "an error of the lexer reaches the caller as the lexer raised it: in the patched Template.compile_nodelist only Parser.parse() runs inside the try whose debug handler reads `e.token` - the library's own tokenizer errors (unterminated string, a tag whose only `%}` is inside a string) carry no token, so with the tokenizer inside that try an Engine(debug=True) replaces the TemplateSyntaxError by AttributeError (shared with C10-S1)",
+               lambda sub: _C10.s1(sub, proj), only=lambda o: "compile_nodelist" in o.construct)
     chk.borrow("S12", "malformed tags end in TemplateSyntaxError, not in a crash of the scanner: every text[<index>] read of the quote-aware tag scanner is guarded by a fresh bounds test for that offset (shared with C12-S2b)",
                lambda sub: C12.s2_subscripts(sub, proj), only=lambda o: "template_parser" in o.construct)
 
